@@ -147,6 +147,35 @@ func (p *Prog) allNarrow16() []string {
 	return out
 }
 
+// narrowArith32: x±y computed in 32 bits and widened to 64 bits afterwards (uint64(rb.Maximum()+1)).
+func (p *Prog) narrowArith32() []narrowSite {
+	var out []narrowSite
+	for _, f := range p.sourceFns() {
+		for _, b := range f.Blocks {
+			for _, ins := range b.Instrs {
+				cv, ok := ins.(*ssa.Convert)
+				if !ok {
+					continue
+				}
+				bo, ok := cv.X.(*ssa.BinOp)
+				if !ok || (bo.Op != token.ADD && bo.Op != token.SUB && bo.Op != token.MUL && bo.Op != token.SHL) {
+					continue
+				}
+				from, to := intWidth(basicKind(bo.Type())), intWidth(basicKind(cv.Type()))
+				if from != 32 || to != 64 {
+					continue
+				}
+				// int / uint are 64 bits wide in this configuration but not a deliberate widening
+				if k := basicKind(cv.Type()); k == types.Int || k == types.Uint {
+					continue
+				}
+				out = append(out, narrowSite{f, cv, bo})
+			}
+		}
+	}
+	return out
+}
+
 func (p *Prog) narrowArith() []narrowSite {
 	var out []narrowSite
 	for _, f := range p.sourceFns() {
@@ -364,5 +393,22 @@ func ruleU1(p *Prog) *RuleResult {
 		}
 		res.bad(c, p.ipos(s.conv), fmt.Sprintf("%s is computed in 16 bits and widened to %s afterwards: the result wraps at the chunk edge", s.op.Op, s.conv.Type()))
 	}
+	// the same one level up: 32-bit arithmetic widened to 64 bits afterwards wraps at the end of the universe
+	// (uint64(rb.Maximum()+1) is 0 for a bitmap that contains 2^32-1)
+	seen32 := map[string]int{}
+	for _, s := range p.narrowArith32() {
+		c := fmt.Sprintf("w32:%s|%s", fname(s.f), p.exprShape(s.op.Pos()))
+		seen32[c]++
+		if why, ok := narrowArith32Allowed[c]; ok && seen32[c] == 1 {
+			res.ok(c, p.ipos(s.conv), "allowed: "+why)
+			continue
+		}
+		res.bad(fmt.Sprintf("%s#%d", c, seen32[c]), p.ipos(s.conv), fmt.Sprintf("%s is computed in 32 bits and widened to %s afterwards: the result wraps at 2^32 (the +1 past the last value of the universe is lost)", s.op.Op, s.conv.Type()))
+	}
 	return res
+}
+
+// narrowArith32Allowed: sites confirmed by reading, keyed by function and expression shape.
+var narrowArith32Allowed = map[string]string{
+	"w32:(*roaring.runContainer16).Xor|<uint32> + 1": "w is a 16-bit value of a run widened to uint32: w+1 <= 65536",
 }
